@@ -1997,6 +1997,11 @@ func (w *sessWorld) readOp(ss *sessStream, dir int, op rOp) (stop bool) {
 	// Len bookkeeping (C06): a call that did not need to wait changes Len by exactly what it consumed
 	if w.on("C06") {
 		lenAfter := br.Len()
+		if es.closeInvoked {
+			// Len() is a scheduling point: the end was closed by another thread between the call and this look at
+			// the buffer, which Close empties
+			return true
+		}
 		w.checkLen(ss, dir, lenAfter)
 		if lenBefore >= n && op.K != "read" {
 			want := lenBefore - cnt
